@@ -18,11 +18,12 @@ import dns.tokenizer
 import dns.ttl
 
 import c05lib
+import namelib as nl
 from lib import Err
 
 ID = "C05"
-COQ_IMPORTS = "From DV Require Import Model.TokM."
-COQ_RUN = "TokM.run"
+COQ_IMPORTS = "From DV Require Import Model.TokM Model.RdTextM."
+COQ_RUN = "RdTextM.run"
 CASE_TIMEOUT = 30.0
 TRUSTED = [
     "model: coq/Model/TokM.v (Tokenizer.get and helper methods, Token.unescape/unescape_to_bytes, dns.ttl.from_text, "
@@ -45,6 +46,9 @@ RULE = (
 
 
 def exc_code(e):
+    for cls, code in nl.EXC:
+        if type(e) is cls:
+            return Err(code, type(e).__name__)
     if isinstance(e, dns.exception.UnexpectedEnd):
         return Err(21, "UnexpectedEnd")
     if isinstance(e, dns.ttl.BadTTL):
@@ -155,13 +159,21 @@ def cases(ctx):
         yield "ttl", [9, enc(a)]
     for _ in range(ctx.n(400, 10000)):
         t = gen_text(rng)
-        ops = [rng.choice([0, 0, 1, 2, 3, 4, 5, 6, 7, 8, 8, 9, 10, 11, 12, 13, 14, 16, 17, 18, 19, 20]) for _ in range(rng.randint(1, 6))]
+        ops = [rng.choice([0, 0, 1, 2, 3, 4, 5, 6, 7, 8, 8, 9, 10, 11, 12, 13, 14, 16, 17, 18, 19, 20, 21, 21, 22]) for _ in range(rng.randint(1, 6))]
         yield "script", [5, enc(t), ops]
     for _ in range(ctx.n(150, 3000)):
         ss = [gen_bytes(rng, 300 if rng.random() < 0.1 else 30) for _ in range(rng.randint(1, 4))]
         ss = [s[:255] for s in ss]
         yield "txt-to-text", [6, ss]
         yield "txt-from-text", [7, enc(c05lib.txt_text(ss))]
+    for _ in range(ctx.n(100, 2000)):
+        # TXT in RFC 3597 generic syntax: valid wire, truncated / over-long strings, empty rdata
+        ss = [gen_bytes(rng, 12) for _ in range(rng.randint(0, 3))]
+        w = b"".join(bytes([len(x)]) + x for x in ss)
+        if rng.random() < 0.4:
+            w = mutate_ascii(rng, w) if w else b"\x05ab"
+        t = c05lib.generic_text(w, rng.choice([0, 2, 128]), rng.choice(SEPS))
+        yield "txt-generic", [7, enc(t if rng.random() < 0.8 else mutate_text(rng, t))]
     for v in [0, 1, 7, 8, 9, 10, 99, 100, 255, 256, 65535, 65536, 2**31, 2**32 - 1, 2**32, 2**48 - 1, 2**48, 10**20]:
         yield "print", [10, 10, v]
         yield "print", [10, 8, v]
@@ -186,8 +198,110 @@ def cases(ctx):
         d = gen_bytes(rng, 20)
         t = c05lib.generic_text(d, rng.choice([0, 2, 4, 128]), rng.choice(SEPS))
         yield "generic-from-text", [31, enc(mutate_text(rng, t))]
+    # --- the regular record types through the schema model
+    yield from schema_cases(ctx)
     # --- whole records (oracle only)
     yield from c05lib.record_cases(ctx)
+
+
+# ------------------------------------------------------------------ schema types (ops 40 / 41)
+# field kinds: d8 d16 d32 ttl q (character-string) n (name) hex b64 txt ; attribute names in constructor order
+SCHEMA = {
+    2: ("n", ["target"]), 5: ("n", ["target"]), 12: ("n", ["target"]), 39: ("n", ["target"]), 23: ("n", ["target"]),
+    15: ("d16 n", ["preference", "exchange"]), 18: ("d16 n", ["preference", "exchange"]),
+    21: ("d16 n", ["preference", "exchange"]), 36: ("d16 n", ["preference", "exchange"]),
+    107: ("d16 n", ["preference", "fqdn"]),
+    6: ("n n d32 ttl ttl ttl ttl", ["mname", "rname", "serial", "refresh", "retry", "expire", "minimum"]),
+    17: ("n n", ["mbox", "txt"]), 26: ("d16 n n", ["preference", "map822", "mapx400"]),
+    33: ("d16 d16 d16 n", ["priority", "weight", "port", "target"]),
+    13: ("q q", ["cpu", "os"]), 19: ("q", ["address"]),
+    35: ("d16 d16 q q q n", ["order", "preference", "flags", "service", "regexp", "replacement"]),
+    256: ("d16 d16 q1", ["priority", "weight", "target"]),
+    52: ("d8 d8 d8 hex", ["usage", "selector", "mtype", "cert"]), 53: ("d8 d8 d8 hex", ["usage", "selector", "mtype", "cert"]),
+    44: ("d8 d8 hex", ["algorithm", "fp_type", "fingerprint"]),
+    49: ("b64", ["data"]), 61: ("b64", ["key"]),
+    16: ("txt", ["strings"]), 99: ("txt", ["strings"]), 258: ("txt", ["strings"]), 56: ("txt", ["strings"]),
+    261: ("txt", ["strings"]), 262: ("txt", ["strings"]),
+}
+MAXV = {"d8": 255, "d16": 65535, "d32": 2**32 - 1, "ttl": 2**32 - 1}
+
+
+def gen_field(rng, kind):
+    if kind in MAXV:
+        m = MAXV[kind]
+        return rng.choice([0, 1, 9, 10, 255, 256, m - 1, m, rng.randrange(m + 1), rng.randrange(m + 1)]) % (m + 1)
+    if kind in ("q", "q1"):
+        b = gen_bytes(rng, 300 if rng.random() < 0.05 else 20)[:255]
+        return b if (b or kind == "q") else b"x"
+    if kind == "n":
+        while True:
+            r = rng.random()
+            if r < 0.5:
+                ls = [l for l in nl.gen_labels(rng, absolute=False, budget=40) if l] + [b"example", b""]
+            else:
+                ls = nl.gen_labels(rng, budget=rng.choice([20, 60, 255]))
+            if nl.fits(ls):
+                return ls
+    if kind in ("hex", "b64"):
+        return gen_bytes(rng, 80) or b"\0"
+    if kind == "txt":
+        return [gen_bytes(rng, 30)[:255] for _ in range(rng.randint(1, 4))]
+    raise ValueError(kind)
+
+
+ORIGINS = [None, [b"example", b""], [b"EXAMPLE", b""], [b""], [b"sub", b"example", b""], [b"rel"], []]
+
+
+def gen_style(rng):
+    org = rng.choice(ORIGINS[:5]) if rng.random() < 0.6 else None
+    return [org, rng.randrange(2), rng.choice([0, 1, 2, 5, 32, 128]), rng.choice(SEPS),
+            rng.choice([0, 1, 3, 4, 32]), rng.choice(SEPS)]
+
+
+def gen_pctx(rng):
+    org = rng.choice(ORIGINS) if rng.random() < 0.7 else None
+    relto = rng.choice(ORIGINS) if rng.random() < 0.3 else None
+    return [org, rng.randrange(2), relto]
+
+
+def mkname(ls):
+    return None if ls is None else dns.name.Name(ls)
+
+
+def build_rdata(rdtype, vals):
+    kinds = SCHEMA[rdtype][0].split()
+    args = [mkname(v) if k == "n" else v for k, v in zip(kinds, vals)]
+    cls = dns.rdata.get_rdata_class(dns.rdataclass.IN, rdtype)
+    return cls(dns.rdataclass.IN, rdtype, *args)
+
+
+def style_obj(sty):
+    org, rel, hc, hs, bc, bs = sty
+    return dns.rdata.RdataStyle(origin=mkname(org), relativize=bool(rel), hex_chunk_size=hc,
+                                hex_chunk_separator=bytes(hs).decode(), base64_chunk_size=bc,
+                                base64_chunk_separator=bytes(bs).decode())
+
+
+def schema_cases(ctx):
+    rng = ctx.rng
+    types = sorted(SCHEMA)
+    for _ in range(ctx.n(600, 12000)):
+        rdtype = rng.choice(types)
+        kinds = SCHEMA[rdtype][0].split()
+        vals = [gen_field(rng, k) for k in kinds]
+        sty = gen_style(rng)
+        yield "rd-to-text", [40, rdtype, vals, sty]
+        try:
+            text = build_rdata(rdtype, vals).to_text(style=style_obj(sty))
+        except Exception:  # noqa
+            continue
+        pc = gen_pctx(rng)
+        if rng.random() < 0.5:
+            # the parse context that undoes the style's relativization
+            pc = [sty[0], rng.randrange(2), None]
+        yield "rd-from-text", [41, rdtype, enc(text), pc]
+        yield "rd-from-text", [41, rdtype, enc(text + rng.choice(["\n", " ; c", " )", "  ", " x", ""])), pc]
+        yield "rd-from-text-mut", [41, rdtype, enc(c05lib.mutate_rdtext(rng, text)), gen_pctx(rng)]
 
 
 def mutate_ascii(rng, b):
@@ -222,7 +336,21 @@ def mutate_text(rng, t):
 
 
 def in_model(kind, case):
-    return case[0] < 100
+    if case[0] >= 100:
+        return False
+    if case[0] == 41:
+        text = dec(case[2])
+        # names go through the IDNA codec when the text is not ASCII; the generic-syntax branch of a
+        # schema type needs the wire codec (C02): neither is part of this model
+        if any(ord(c) > 127 for c in text) and "n" in SCHEMA[case[1]][0]:
+            return False
+        try:
+            t = dns.tokenizer.Tokenizer(text).get()
+            if t.is_identifier() and t.value == "\\#":
+                return False
+        except Exception:  # noqa
+            pass
+    return True
 
 
 # ------------------------------------------------------------------ implementation runner
@@ -283,6 +411,17 @@ def impl(case):
             return enc(c05lib.generic_text(case[1], case[2], case[3]))
         if op == 31:
             return dns.rdata.from_text(dns.rdataclass.IN, UNKNOWN_TYPE, dec(case[1])).data
+        if op == 40:
+            return enc(build_rdata(case[1], case[2]).to_text(style=style_obj(case[3])))
+        if op == 41:
+            org, rel, relto = case[3]
+            rd = dns.rdata.from_text(dns.rdataclass.IN, case[1], dec(case[2]), origin=mkname(org), relativize=bool(rel),
+                                     relativize_to=mkname(relto))
+            out = []
+            for k, a in zip(SCHEMA[case[1]][0].split(), SCHEMA[case[1]][1]):
+                v = getattr(rd, a)
+                out.append(nl.labels_of(v) if k == "n" else [bytes(x) for x in v] if k == "txt" else bytes(v) if isinstance(v, (bytes, bytearray)) else int(v))
+            return out
     except Exception as e:  # noqa
         return exc_code(e)
     return Err(999, "bad case")
@@ -340,6 +479,10 @@ def run_script(text, ops):
                 r = tok.get_uint16(base=8)
             elif op == 20:
                 r = tok.get_string().encode()
+            elif op == 21:
+                r = tok.get_string_as_bytes()
+            elif op == 22:
+                r = tok.get_string_as_bytes(max_length=255)
             else:
                 out.append(Err(999))
                 return out
